@@ -219,12 +219,17 @@ def startOf (path : List Nat) : Option (Loc × List Nat) :=
   | _ => none
 
 /-- `some true` = accepted, `some false` = no interleaving of the model explains the observation,
-`none` = search budget exhausted / malformed paths -/
-def accepts (cap : Nat) (wpaths : List (List Nat)) (ppath spath : List Nat) (res : Bool) (fuel : Nat) :
-    Option Bool := do
+`none` = search budget exhausted / malformed paths. `buckets` is the size of the visited table (it only
+prunes: keys beyond the table are simply not remembered). -/
+def acceptsWith (buckets : Nat) (cap : Nat) (wpaths : List (List Nat)) (ppath spath : List Nat) (res : Bool)
+    (fuel : Nat) : Option Bool := do
   let ws ← wpaths.mapM startOf
   let p ← startOf ppath
   let s ← startOf spath
-  search res fuel [⟨initSh cap, ws, p, s⟩] (Array.replicate 8192 [])
+  search res fuel [⟨initSh cap, ws, p, s⟩] (Array.replicate buckets [])
+
+/-- the acceptor the driver runs (`gcsacc`) -/
+def accepts (cap : Nat) (wpaths : List (List Nat)) (ppath spath : List Nat) (res : Bool) (fuel : Nat) :
+    Option Bool := acceptsWith 8192 cap wpaths ppath spath res fuel
 
 end ArvVerif.C06.GCS
